@@ -519,7 +519,7 @@ package parse
 //@ ghost stream(r, i)
 //@ ghostfield delivered
 //@ iface io.Reader.Read
-//@   modifies M.uint8 G.delivered
+//@   modifies M.uint8, G.delivered
 //@   ensures[S] 0 <= result0 && result0 <= len(arg0)
 //@   ensures[F] @frame: sameBytesExcept(ptr(arg0), ptr(arg0) + len(arg0))
 //@   ensures[F,ghost] @count: delivered(recv) == old(delivered(recv)) + result0 && old(delivered(recv)) >= 0
